@@ -67,6 +67,9 @@ func TestWorker(t *testing.T) {
 		t.Fatalf("unknown property %q", job.Prop)
 	}
 	TestingT = t
+	if job.Crumb != "" && job.Prop == "C19" {
+		crumbInputPath = job.Crumb + ".input"
+	}
 	debug.SetGCPercent(200)
 	out := &WorkerOut{Prop: job.Prop, Stats: map[string]int{}, Meta: map[string]any{"level": ps.Level, "rule": ps.Rule, "assumptions": ps.Assumptions, "expected_reach": ps.ExpectedReach}}
 	agg := NewStats()
